@@ -7,6 +7,7 @@ from ..backends import ScriptedBackend, ScriptSpec
 from ..world import table_from_perms, all_perms, rotate
 from . import c03, c04, c05
 from .c01 import table
+from ..refs.syncsh import SyncRef
 
 LEVEL = "fault_enumeration"
 PROP = "C13"
@@ -71,7 +72,9 @@ class FailureContainment(Oracle):
                                   f"{self._before[part]} -> {after.get(part)}"))
         elif obs[0] == "suggest" and obs[1] == "resume":
             if obs[2] in self.failed:
-                v.append(("failure:failed-trial-resumed", f"trial {obs[2]} failed earlier and was suggested to be resumed"))
+                forced = any(getattr(o, "last_resume_forced", False) for o in world.oracles)
+                v.append(("failure:failed-trial-resumed" + (":rung-has-more-slots-than-survivors" if forced else ""),
+                          f"trial {obs[2]} failed earlier and was suggested to be resumed"))
         elif obs[0] == "suggest" and obs[1] == "start" and self.no_repeat:
             cfg = {k: v_ for k, v_ in world.trials[obs[2]].config.items() if k != world.max_resource_attr}
             fz = _freeze(cfg)
@@ -84,6 +87,12 @@ class FailureContainment(Oracle):
         return repr(sorted(self.failed.items()))
 
 
+class _SilentSync(SyncRef):
+    def after(self, world, ev, obs):
+        super().after(world, ev, obs)
+        return []
+
+
 def build_generic(cfg):
     sched, info = scheds.make(cfg["kind"], mode=cfg["mode"], seed=cfg["seed"], R=cfg["R"], mra=cfg.get("mra", True),
                               **cfg.get("kw", {}))
@@ -94,7 +103,11 @@ def build_generic(cfg):
                 metrics=info["metrics"])
     if cfg["kind"] == "hb-cost":
         spec["cost"] = c04.cost_table(T, cfg["R"], 0)
-    return World(sched, spec, [FailureContainment(no_repeat=cfg["kind"] not in ("pbt", "dehb"))])
+    oracles = []
+    if cfg["kind"] == "shb" and "bracket_rungs" not in cfg.get("kw", {}):
+        # bracket bookkeeping only (not judged here): tells whether a rung has more slots than the previous one had survivors
+        oracles.append(_SilentSync([[(3, 1), (2, 2), (1, cfg["R"])], [(2, 2), (1, cfg["R"])]], cfg["mode"], mra=info["mra"]))
+    return World(sched, spec, oracles + [FailureContainment(no_repeat=cfg["kind"] not in ("pbt", "dehb"))])
 
 
 def build_a(cfg):
